@@ -34,7 +34,9 @@ HeaderPool     == {"gtsam/geometry/Point2.h", "vector", "path/to/ns1.h", "a-b c.
 DefaultPool    == {"0", "-9.81", "1e-5", "\"hello, world\"", "'a'", "gtsam::Pose3()", "Foo(1, 2)", "{1, 2}",
                    "std::vector<int>()", "a + b", "ns::K::Red", "f(g(1), \"x)\")", "nullptr",
                    "\"http://host/a\"", "\"/* no comment */\"", "'/'", "\"a;b\"",
-                   "\"two  blanks\"", "Format(\"%d   %d\", 2)", "\",  \""}
+                   "\"two  blanks\"", "Format(\"%d   %d\", 2)", "\",  \"",
+                   \* texts that merely CONTAIN the spelling of a template parameter (T, U, POSE, Va)
+                   "\"Title\"", "kUnit", "Value(3)", "POSE_DEFAULT"}
 \* "mexcall": the call profile for the MATLAB runtime (matlab.h converts no float, the library types of the exec profile
 \* clash with the runtime's own gtsam types; raw-pointer results, templated functions / static methods and
 \* `unsigned char` parameters are recorded findings that stop a build or a call - they are witnessed by directed modules)
